@@ -1,7 +1,7 @@
 #!/bin/bash
 # usage: eval_seeded.sh [name-filter]   -- runs the quick check of the broken property against each seeded change
 export GOFLAGS=-mod=mod GOPROXY=off GOSUMDB=off GOTOOLCHAIN=local
-WT=/tmp/wt-eval
+WT=${WT:-/tmp/wt-eval}
 [ -d $WT ] || git -C /repo worktree add -q $WT HEAD
 for d in /verif/seeded/*${1}*/; do
   name=$(basename $d)
